@@ -41,6 +41,12 @@ _hist("C15", "Random explicit timestamps (equal, negative, extreme), extracted-i
 _hist("C16", "For every query of the battery the pages obtained by following next_cursor (page size 1..10) are compared with one large request: same (frame, range) sequence, no repeats, constant total_hits. Known findings cover the cases where a frame holds the query word several times (slice stream depends on top_k).")
 _hist("C28", "Differential: every query of the battery is issued on the live handle, after reopen, on a read-only handle and after a doctor rebuild; answers on the same committed state must be identical; hits returned while records are pending must contain the query.")
 
+_hist("C18", "Read-only sessions under the syscall monitor: open_read_only, model comparison against the last committed state (records still pending in the log after a process death must not show), searches, timelines, vector queries, verify, drop; no write-class syscall may be issued on the memory's directory and the file hash is the same when the handle is dropped as when it was opened.")
+_hist("C19", "A directory listing after every API return (successful or failed) over histories with vacuum and doctor, with injected ENOSPC/EIO/EMFILE/short writes/EINTR in two thirds of the runs; create/open must refuse to run while a planted forbidden sidecar (-wal/-shm/-lock/-journal and dot-prefixed variants) exists.")
+_hist("C24", "Tickets granting a capacity a few bytes to kilobytes above the current payload end, then whole and chunked puts with and without commits and restarts; after every call each frame's payload end is compared with the granted capacity, an incompressible payload that cannot fit must be refused, and refused puts are monitored for write-class syscalls.")
+_hist("C25", "Ticket sequences (fresh, stale, equal, negative) interleaved with commits, clean restarts and process death: a ticket is accepted only if its number exceeds every number accepted before (model survives restart); rejected tickets issue no write-class syscall and leave the ticket state unchanged; signed tickets with random signatures, wrong memory ids or on unbound memories are rejected. Acceptance of an authentic signed ticket is out of reach (no private key).")
+_hist("C42", "Histories with deletes and updates (including payload-reusing updates) followed by vacuum, directly or through doctor: frame table and exact contents equal the model afterwards, verify right after the vacuum reports Passed, and the file reopens.")
+
 NA = {
  "C30": "pure function of an in-memory value or byte slice (header/footer/TOC/time-index codecs): no schedule, clock, fault or history for a simulator to control",
  "C32": "pure function of a query string (and crate-private): no simulated dimension",
